@@ -306,6 +306,27 @@ def replay_compression(inputs, ob):
     return ReplayResult(bad, f"Content-Encoding={header!r} enabled={[e.value for e in decode]} cap={cap} body={len(wire)}B ({mode}): status={st} (expected {want}); RPC layer sees {None if seen is None else len(seen)} bytes (expected {None if want_seen is None else len(want_seen)})")
 
 
+HEADER_CORPUS = ["gzip", "zstd", "identity", "GZIP", " gzip ", "gzip, br", "br, gzip", "gzip;q=1", "gzip; q=0", "br", "gzip, zstd", "zstd, gzip", "x-gzip", "identity, gzip", "gzip,", ",gzip", "gzip,gzip", "deflate", "gzip zstd", "*"]
+
+
+def search_compression(ob, seed=0):
+    """Bounded native search, used only when the proof is lost or the unit leaves the engine's fragment: a corpus of
+    Content-Encoding spellings (case, padding, parameters, lists, repeats) x enabled decoders x cap, judged by the same
+    oracle as the model replays (replay_compression)."""
+    for header in HEADER_CORPUS:
+        for decode in (["zstd", "gzip"], ["gzip"], ["zstd"], []):
+            for capped in (False, True):
+                for mode in ("returns", "error") + (("limit",) if capped else ()):
+                    inputs = {"decode": [n.upper() for n in decode], "capped": capped, "cap": 64, "has_header": True, "content_encoding": header, "decoder_mode": mode}
+                    try:
+                        rr = replay_compression(inputs, ob)
+                    except Exception as e:  # noqa: BLE001
+                        rr = ReplayResult(False, f"harness raised {e!r}")
+                    if rr.confirmed:
+                        return inputs, rr
+    return None
+
+
 def classify_compression(inputs, ob):
     tok = ((inputs.get("content_encoding") if inputs.get("has_header") else None) or "").strip().lower()
     return "identity" if tok == "identity" else ""
@@ -315,6 +336,7 @@ def classify_compression(inputs, ob):
     "C17.O2 _CompressionMiddleware.process_request: 415 / 413 / 400 / decoded body handed on",
     targets=["vgi_rpc/http/server/_middleware.py::_CompressionMiddleware.process_request"],
     replay=replay_compression,
+    search=search_compression,
     classify=classify_compression,
     min_obligations=40,
     by_contract=["vgi_rpc/_codec.py::decompress (C18.O1)"],
